@@ -195,7 +195,8 @@ pub mod shims {
             }
         }
         pub unsafe fn munmap(addr: *mut c_void, len: usize) -> c_int {
-            let ok = give_back(addr as u64);
+            // as the kernel: EINVAL for a length of 0 or an address that is not page-aligned
+            let ok = len > 0 && (addr as u64) & 0xfff == 0 && give_back(addr as u64);
             os("munmap", addr as u64, len as u64, json!({"owned":ok}));
             if ok { 0 } else { -1 }
         }
@@ -277,7 +278,8 @@ pub mod shims {
             r as *mut c_void
         }
         pub unsafe fn VirtualFree(addr: *mut c_void, size: usize, ty: u32) -> i32 {
-            let ok = give_back(addr as u64);
+            // as the system: MEM_RELEASE wants the base address of the allocation and a size of 0
+            let ok = ty == MEM_RELEASE && size == 0 && give_back(addr as u64);
             os("VirtualFree", addr as u64, size as u64, json!({"owned":ok,"type":ty}));
             ok as i32
         }
